@@ -121,9 +121,6 @@ def run(ctx):
                 okn = np.all(np.abs(np.asarray(msor[2]).ravel() - np.asarray(sor[1]).ravel()) <= 1e-7 * np.maximum(np.abs(np.asarray(sor[1]).ravel()), 1e-300))
                 if not (okp and oks and okn):
                     ctx.fail("correspondence", f"boltzmann_radial_potential_linear_density_ebeam_sor differs from Radial.bpEbeamSor ({msor[0]} passes, species q={q.tolist()})", inp=dict(desc, variant="ebeam_sor"))
-                # converged over-relaxed and plain Newton solutions are the same fixed point
-                if rel <= 1e-10 and np.abs(sor[0] - phi_eb).max() > 1e-6 * sc:
-                    ctx.fail("correspondence", "over-relaxed and plain e-beam solvers converge to different potentials", inp=dict(desc, variant="ebeam_sor_vs_newton"))
                 if sor[0][-1] != 0:
                     ctx.fail("correspondence", f"over-relaxed e-beam solver: wall potential {sor[0][-1]!r}", inp=dict(desc, variant="ebeam_sor_wall"))
             else:
